@@ -427,31 +427,53 @@ class Real:
                 self.metas[op["mdslot"]] = d
             elif t == "save":
                 md = None if op["md"] is None else self.metas[op["md"]]
-                self.models[op["slot"]].save(self.path(op["path"]), md)
+                if op.get("fobj"):  # `location` given as an open (binary) file object instead of a path (neural_state.py:203-204 "str or file")
+                    tmp_path = self.path(op["path"]) + ".part"
+                    try:
+                        with open(tmp_path, "wb") as fh:
+                            self.models[op["slot"]].save(fh, md)
+                        os.replace(tmp_path, self.path(op["path"]))  # the caller's file appears only if save returned
+                    finally:
+                        if os.path.exists(tmp_path):
+                            os.remove(tmp_path)
+                else:
+                    self.models[op["slot"]].save(self.path(op["path"]), md)
             elif t == "saverSave":
+                # ModelSaver is driven through its PUBLIC interface only: constructor + the callback event `on_epoch_end(nn_state, epoch)`
+                # with a period that fires; the file it writes is `folder_path / file_name.format(epoch)` (documented contract), chosen
+                # such that it is the history's file number `path`
+                mk = lambda md_arg: ModelSaver(1, self.tmp, "file{}.pt", save_initial=False, metadata=md_arg,  # noqa: E731
+                                               metadata_only=op["metadataOnly"])
                 if op["src"] == "dict":
                     key = ("dict", op["mdslot"], op["metadataOnly"])
-                    if key not in self.savers or self.savers[key].metadata is not self.metas[op["mdslot"]]:
-                        self.savers[key] = ModelSaver(1, os.path.join(self.tmp, "saver"), "m{}.pt", metadata=self.metas[op["mdslot"]],
-                                                      metadata_only=op["metadataOnly"])
-                    saver = self.savers[key]
+                    if key not in self.savers or self.savers[key][1] is not self.metas[op["mdslot"]]:
+                        self.savers[key] = (mk(self.metas[op["mdslot"]]), self.metas[op["mdslot"]])  # one saver object, reused every period
+                    saver = self.savers[key][0]
                 elif op["src"] == "callable":
                     d, ents = self.make_md(op["items"])
                     m["entries"] = ents
-                    saver = ModelSaver(1, os.path.join(self.tmp, "saver"), "m{}.pt", metadata=lambda s, e: copy.deepcopy(d),
-                                       metadata_only=op["metadataOnly"])
+                    saver = mk(lambda s, e: copy.deepcopy(d))
                 else:
-                    saver = ModelSaver(1, os.path.join(self.tmp, "saver"), "m{}.pt", metadata=None, metadata_only=op["metadataOnly"])
-                saver._save(self.models[op["slot"]], 3, self.path(op["path"]))
+                    saver = mk(None)
+                saver.on_epoch_end(self.models[op["slot"]], op["path"])
             elif t == "load":
-                self.models[op["slot"]].load(self.path(op["path"]))
+                if op.get("fobj"):
+                    with open(self.path(op["path"]), "rb") as fh:
+                        self.models[op["slot"]].load(fh)
+                else:
+                    self.models[op["slot"]].load(self.path(op["path"]))
             elif t == "autoload":
                 m["rand"] = []
-                st = KINDS[op["kind"]].autoload(self.path(op["path"]), gpu=False)
+                if op.get("fobj"):
+                    with open(self.path(op["path"]), "rb") as fh:
+                        st = KINDS[op["kind"]].autoload(fh, gpu=False)
+                else:
+                    st = KINDS[op["kind"]].autoload(self.path(op["path"]), gpu=False)
                 self.models[op["slot"]] = st
             else:
                 raise AssertionError(t)
-        except (ValueError, TypeError, RuntimeError, KeyError, AttributeError, FileNotFoundError, ZeroDivisionError, IndexError) as e:
+        except (ValueError, TypeError, RuntimeError, KeyError, AttributeError, FileNotFoundError, ZeroDivisionError, IndexError,
+                pickle.UnpicklingError, EOFError) as e:
             err = type(e).__name__
         return m, err
 
@@ -523,8 +545,13 @@ def tuplify(x):
 
 def snapshot_state(st):
     """independent deep snapshot of a state (for the oracles): nets -> name -> cloned tensor, unitary dict, sizes"""
+    ud = st.__dict__.get("unitary_dict") if "unitary_dict" in st.__dict__ else None
+    if isinstance(ud, dict) and all(isinstance(v, torch.Tensor) for v in ud.values()):
+        ud = {k: v.detach().clone() for k, v in ud.items()}
+    elif "unitary_dict" in st.__dict__:  # an attribute that is not a dictionary of tensors: a state of the object no history should reach
+        ud = {"<not a unitary dictionary>": repr(ud)[:120]}
     snap = {"nets": {n: {k: v.detach().clone() for k, v in getattr(st, n).named_parameters()} for n in st.networks},
-            "ud": None if "unitary_dict" not in st.__dict__ else {k: v.detach().clone() for k, v in st.unitary_dict.items()},
+            "ud": ud,
             "arch": (int(st.__dict__["num_visible"]), int(st.__dict__["num_hidden"]), st.__dict__.get("num_aux")),
             "kind": type(st).__name__}
     return snap
@@ -552,17 +579,17 @@ def admissible(real, op):
         return False
     if t == "saverSave" and op["src"] == "dict" and op["mdslot"] not in real.metas:
         return False
-    # a metadata key "unitary_dict" on a state WITHOUT a unitary dictionary is accepted by save and makes the
-    # file's "unitary_dict" entry an arbitrary user value: outside the modelled domain of autoload
-    md = None
-    if t == "save" and op["md"] is not None:
-        md = real.metas[op["md"]]
-    if t == "saverSave" and op["src"] == "dict":
-        md = real.metas[op["mdslot"]]
-    if t == "saverSave" and op["src"] == "callable":
-        md = dict(op["items"])
-    if md is not None and "unitary_dict" in md:
-        if "unitary_dict" not in real.models[op["slot"]].__dict__ or (t == "saverSave" and op["metadataOnly"]):
+    # a metadata key "unitary_dict" on a state WITHOUT a unitary dictionary (or in a metadata-only checkpoint) is accepted by save and
+    # makes the file's "unitary_dict" entry an arbitrary user value.  Such saves, loads of the file and the autoload of the SAME state
+    # type (PositiveWaveFunction.autoload never reads the entry) are executed; only handing that user value to the constructor of a
+    # state type that has a unitary dictionary (ComplexWaveFunction / DensityMatrix .autoload) is outside the modelled domain.
+    if t == "autoload" and op["kind"] != "pos" and os.path.exists(real.path(op["path"])):
+        try:
+            f = torch.load(real.path(op["path"]), weights_only=False)
+        except Exception:  # unreadable files are handled (and compared) by the operation itself
+            f = {}
+        u = f.get("unitary_dict") if isinstance(f, dict) else None
+        if "unitary_dict" in (f if isinstance(f, dict) else {}) and not (isinstance(u, dict) and u and all(isinstance(x, torch.Tensor) for x in u.values())):
             return False
     if t == "train" and op.get("bases"):
         # the training data uses the bases X, Y and Z: a state whose dictionary lacks one of them cannot be trained on it (KeyError)
